@@ -727,7 +727,12 @@ def worker(args) -> Dict[str, Any]:
             # soft budget; on a crowded machine go on (up to three times the budget) until
             # this worker has contributed its share of the minimum observations
             done = chk.counters.get("variants_generated", 0) + len(batch)
-            if chk.elapsed() > budget and (done >= own_minimum or chk.elapsed() > 3 * budget):
+            # ... and, when no budget was given explicitly, until most of its tasks are
+            # done (up to five budgets): which payload meets which category must not
+            # depend on how busy the machine is
+            if chk.budget is None and index < 0.85 * len(mine) and chk.elapsed() < 5 * budget:
+                pass
+            elif chk.elapsed() > budget and (done >= own_minimum or chk.elapsed() > 3 * budget):
                 chk.count("tasks_skipped_for_budget", len(mine) - index)
                 break
             if b not in sites_of:
